@@ -112,6 +112,26 @@ func (fr *Frame) intercept(st *State, fn *ssa.Function, pkg string, args []Val, 
 		return fr.atomicOp(st, "store", args, fn, pos), true
 	case "sync/atomic.Uint64.CompareAndSwap", "sync/atomic.Uint32.CompareAndSwap", "sync/atomic.Int64.CompareAndSwap", "sync/atomic.Int32.CompareAndSwap":
 		return fr.atomicOp(st, "cas", args, fn, pos), true
+	case "sync/atomic.Value.Load":
+		// atomic.Value: all values ever stored have one concrete type (Store panics otherwise), so what another
+		// thread may have stored since is an arbitrary value of the type of the value last seen here
+		ex.trusted["sync/atomic.Value: Load returns a value of the concrete type that was stored (Store of another type panics in the storing thread)"] = true
+		cs := ArraySort(SRef, SIfc)
+		h := ex.get(st, "AtomicValue", cs)
+		cur := Select(h, args[0].T)
+		if ex.ghost > 0 {
+			return Val{T: cur}, true
+		}
+		v := ex.ctx.Fresh("atomicvalue", SIfc)
+		ex.assume(st, Eq(App("typeof", SInt, v), App("typeof", SInt, cur)))
+		ex.assume(st, Eq(Eq(v, V("iface_nil", SIfc)), Eq(cur, V("iface_nil", SIfc))))
+		ex.set(st, "AtomicValue", Store(h, args[0].T, v))
+		return Val{T: v}, true
+	case "sync/atomic.Value.Store":
+		cs := ArraySort(SRef, SIfc)
+		h := ex.get(st, "AtomicValue", cs)
+		ex.set(st, "AtomicValue", Store(h, args[0].T, args[1].T))
+		return Val{}, true
 	case "fmt.Sprintf", "fmt.Sprint", "fmt.Sprintln":
 		ex.trusted["fmt.Sprint*: returns an arbitrary string"] = true
 		v := ex.ctx.Fresh("sprintf", SStr)
@@ -322,6 +342,9 @@ func (fr *Frame) heldObligation(st *State, base *Term, field, lock string, write
 	} else {
 		goal = Ge(Select(ls, lref), IntLit(1))
 	}
+	// constructor exemption: an object this call allocated itself is not shared yet
+	ex.trusted["lock discipline: fields of an object allocated by the running call may be initialised without its lock (not yet published)"] = true
+	goal = Or(goal, Not(Select(ex.ctx.Const("Alloc!pre", ArraySort(SRef, SBool)), base)))
 	ex.assert(st, "held", lock+"@"+field+":"+mode+":"+fr.fn.Name()+fr.siteSuffix("held:"+field+":"+mode+":"+fr.fn.Name()), ex.w.lockTags, goal, fr.pos(pos))
 }
 
